@@ -209,4 +209,13 @@ PROPS = {
     trusted_base=TB_COMMON + ["tokio and futures 0.3 contracts as in C11"],
     assumptions=[],
  ),
+ "C09": dict(
+    level_text="Lean 4 proof, for every execution of the log-topic model in which each subscriber is polled by one task at a time (any number of publishers and subscribers, any schedule): positions become visible in position order (one total order, the same for every listener, extending each producer's call order), every listener sees at a position exactly the logged event; a joined subscriber's deliveries are literally the log prefix up to its cursor and it answers `nothing` only when it has yielded everything visible; a split pair created by one load `tl` of consumer_tail: the old half yields exactly positions [0, cur) with cur <= tl and ends exactly at tl, the new half exactly [tl, cur'): together a partition, every send completed before the load is old, every send started after it is new, publishers in flight at the load land in the new half; new-only likewise; slots are written once and never change after becoming visible (references stay valid). Counterexample theorem: two concurrent pollers of one subscriber skip an event. Tied to the real mmap log channel by step-level replay of scheduled runs with late subscriptions of the three implemented kinds.",
+    level_note="Theorem about model M9 (the mmap file is a write-once array of slots; no bound on its size); sequential consistency - every atomic of the log topic is Relaxed in the source, including the publishing CAS and the subscriber's load (no release/acquire edge between the slot write and its reader): outside model and check. Old-only subscription is todo!() upstream and excluded, as the property says.",
+    lean=["C09"],
+    scenarios=[dict(bin="mmaplog", args=[], runs=800, model_name="M9 MmapLog")],
+    rule="1-3 publishers (1-4 events each), one subscribing thread creating 1-3 subscriptions (new only / old+new split / old+new joined) after random delays and consuming from random listeners at different speeds; every log-topic access is a yield point; DISTINCT by trace hash; NON-TRIVIAL if a late subscription happened and at least two publications",
+    trusted_base=TB_COMMON + ["mmap'd memory behaves as memory (sparse file under /verif/tmp/mmap, removed after the run)"],
+    assumptions=["each stream is polled by one task at a time (poll_next takes Pin<&mut Self>)"],
+ ),
 }
